@@ -191,8 +191,125 @@ def interleaved_history(ttl_q, k, what, which):
         sim.close()
 
 
+def sched_history(rng, ttl_q, fixed=None):
+    """correlator operations interleaved at their suspension points under a schedule drawn by the harness: every
+    send_error hook call blocks until the schedule resumes its operation; meanwhile other operations (put of a probe or
+    of a new request, get for a late / in-time / unknown response) start and suspend in turn.  The same schedule is run
+    through the turn-level model (Model/SweepTasks.lean, op c.sched); hook calls in order, matches and the final stores
+    are compared."""
+    import asyncio
+    sim = CorrSim(ttl_resp_q=ttl_q)
+    cases = [Case(sim.first_line, 'ok', None)]
+    try:
+        k = rng.randrange(1, 6)
+        t = 100
+        for i in range(1, k + 1):
+            t += rng.choice((1, 1, ttl_q // 2))
+            ln, out = sim.op_put(t, sim.submit(i, 50 + i, 0))
+            cases.append(Case(ln, out, None))
+        clock = t + rng.choice((1, ttl_q // 2, ttl_q + 5, 2 * ttl_q))
+        n_ops = rng.randrange(1, 5)
+        ops = []
+        for j in range(n_ops):
+            kind = rng.choice(('probe', 'probe', 'submit', 'resp', 'resp', 'resp-unknown'))
+            if kind == 'probe':
+                ops.append(('P', sim.request('enq', 5000 + j)))
+            elif kind == 'submit':
+                ops.append(('P', sim.submit(20 + j, 80 + j, 0)))
+            elif kind == 'resp':
+                ops.append(('G', sim.resp('submitresp', rng.randrange(1, k + 1), 0, 'idx')))
+            else:
+                ops.append(('G', sim.resp('submitresp', 900 + j, 0, 'idy')))
+        loop = sim.loop
+        state = {'cur': None, 'suspended': [], 'results': {}}   # suspended: [(op index, future)] in model order
+
+        async def gate(_m):
+            fut = loop.create_future()
+            cur = state['cur']
+            # the model appends a task when it suspends for the first time and keeps its place afterwards
+            for idx, (oi, _f) in enumerate(state['suspended']):
+                if oi == cur:
+                    state['suspended'][idx] = (oi, fut)
+                    break
+            else:
+                state['suspended'].append((cur, fut))
+            await fut
+        sim.gate = gate
+        evs = []
+        tasks = {}
+
+        async def settle():
+            for _ in range(50):
+                await asyncio.sleep(0)
+
+        async def run_op(oi):
+            kind, msg = ops[oi]
+            if kind == 'P':
+                await sim.corr.put(msg)
+            else:
+                r = await sim.corr.get(msg)
+                state['results'][oi] = r
+            # finished: no longer among the suspended ones
+            state['suspended'] = [(o, f) for (o, f) in state['suspended'] if o != oi]
+
+        async def scheduler():
+            nonlocal clock
+            nxt = 0
+            while nxt < len(ops) or state['suspended']:
+                choices = []
+                if nxt < len(ops):
+                    choices += ['start', 'start']
+                if state['suspended']:
+                    choices += ['resume']
+                c = rng.choice(choices)
+                clock += rng.choice((0, 0, 1, ttl_q // 3))
+                sim.clock.q = clock
+                if c == 'start':
+                    oi = nxt
+                    nxt += 1
+                    state['cur'] = oi
+                    evs.append('%s@%d@%s' % (ops[oi][0], clock, sim.show(ops[oi][1])))
+                    tasks[oi] = loop.create_task(run_op(oi))
+                else:
+                    idx = rng.randrange(len(state['suspended']))
+                    oi, fut = state['suspended'][idx]
+                    state['cur'] = oi
+                    evs.append('R@%d@%d' % (idx, clock))
+                    fut.set_result(None)
+                await settle()
+            for tk in tasks.values():
+                await tk
+        sim.run(scheduler())
+        sim.gate = None
+        ev_str = sim.take_events()
+        marks = []
+        for oi, (kind, msg) in enumerate(ops):
+            if kind == 'G':
+                r = state['results'].get(oi)
+                marks.append((msg.sequence_num, ' %s=%d' % ('U' if r is None else 'M', msg.sequence_num)))
+        real = 'ok' + ev_str + ''.join(mk for _q, mk in sorted(marks)) + ' tasks=0'
+        # predicate: every request 1..k has at most one outcome (time-out report or matched response), and a report only
+        # after its time-to-live
+        fail = None
+        for i in range(1, k + 1):
+            n_to = ev_str.count('E=submit:%d:' % i)
+            n_m = sum(1 for oi, (kind, msg) in enumerate(ops) if kind == 'G' and msg.sequence_num == i and state['results'].get(oi) is not None)
+            if n_to + n_m > 1 and fail is None:
+                fail = 'request %d: %d time-out reports and %d matched responses under the schedule %s' % (i, n_to, n_m, ' '.join(e.split('@')[0] + '@' + e.split('@')[1] for e in evs))
+        line = 'c.sched ' + ' '.join(evs)
+        cases.append(Case(line, real, None, fail, {'op': 'sched', 'ttl': ttl_q, 'lines': [c.line for c in cases[1:]] + [line]}))
+        ln, out = sim.op_dump()
+        cases.append(Case(ln, out, ('sched', ttl_q // Q, min(k, 3), n_ops, sum(1 for e in evs if e.startswith('R@')) > 1), None,
+                          {'op': 'sched', 'ttl': ttl_q, 'lines': [c.line for c in cases[1:]] + [ln]}))
+    finally:
+        sim.close()
+    return cases
+
+
 def generate(rng, tier):
     thorough = tier == 'thorough'
+    for _ in range(600 if thorough else 150):
+        yield from sched_history(rng, rng.choice((Q, Q * 5 // 2, 15 * Q)))
     for ttl in (Q, 15 * Q):
         for off in (1, 2, 500):
             yield from nested_history(ttl, off)
@@ -207,6 +324,8 @@ def generate(rng, tier):
 
 
 def replay(inp):
+    if inp.get('op') == 'sched':
+        return Case('\n'.join(['c.new %d 102400' % inp['ttl']] + inp.get('lines', [])), '', None, None, inp)
     if inp.get('op') == 'interleaved':
         return interleaved_history(inp['ttl'], inp['k'], inp['what'], inp['which'])[-1]
     if inp.get('op') == 'nested':
